@@ -474,7 +474,8 @@ def sweep_vectors(ctx, run, family, max_subs, forms, ops, suite, verify_every=1)
 def sweep_identity(ctx, run, family, suite):
     """two user ids with different flag sets (+ a third without flags subpacket), selection by name / comment / e-mail / unknown"""
     w = run.w
-    users = [None, 'u1', 'u2', 'c2', 'e1@example.com', 'u3', 'nobody']
+    # (a proper SUBSTRING of a name / comment / e-mail names no identity: 'u', 'c', 'e1', 'example.com', 'u1 ' behave like 'nobody')
+    users = [None, 'u1', 'u2', 'c2', 'e1@example.com', 'u3', 'nobody', 'u', 'c', 'e1', 'example.com', 'u1 ']
     n = 0
     for f1 in family:
         for f2 in family:
